@@ -4,11 +4,17 @@ import AasVerif.Model.Retree.Sem
 Model of the pattern pipeline of `aas_core_codegen/xsd/main.py` (after the `fix:` commits of
 branch `verif-c13`) and a reader for the regular expressions of XML Schema.
 
-* `undoEsc` — `_undo_escaping_backslash_x_in_pattern` and
-  `_undo_escaping_backslash_x_u_and_U_in_pattern`: the *textual* replacement of `\xHH`
-  (`\uHHHH`, `\UHHHHHHHH`) driven by the character class of the regular expression as it is
-  written in the source (`Gen.Xsd.hexClass`).  `int(…, 16)` and `chr(…)` are crash sites.
-  Since the fix the first function is no longer a part of `_translate_pattern`.
+* `undoX` — `_undo_escaping_backslash_x_in_pattern`: the *textual* replacement of `\xHH`
+  driven by the character class of the regular expression as it is written in the source
+  (`Gen.Xsd.hexClassX`).  `int(…, 16)` and `chr(…)` are crash sites.  Since the fix it is no
+  longer a part of `_translate_pattern` (a public helper with pinned tests).  Its sibling for
+  `\x`/`\u`/`\U`, which prepared the patterns for the external intersection, was removed by the
+  repair of finding C13-F1.
+* `renderForGreenery` — `_render_pattern_for_greenery`: `retree.parse` → `_AnchorRemover` →
+  `retree.render` with `_GreeneryRenderer` (tables `Gen.Xsd.grnLiteral`/`grnRange`), and
+  `escAnchors` — `_escape_carets_and_dollars_rendered_by_greenery`, applied to the text of the
+  intersection before `_translate_pattern`.  The intersection itself (the external library
+  `greenery`) is not modelled.
 * `translate` — `_translate_pattern`: `retree.parse` → `_NonXmlCharacterFinder` →
   `_AnchorRemover` → `retree.render` with `_XsdRenderer` (its two escaping tables are
   parameters, `Gen.Xsd.xsdLiteral`/`xsdRange` are the ones of the source).
@@ -79,9 +85,6 @@ def undoGo (cls : List (Nat × Nat)) (kinds : List (Nat × Nat)) : Bool → Nat 
 
 /-- `_undo_escaping_backslash_x_in_pattern` -/
 def undoX (cls : List (Nat × Nat)) (t : Text) : Undo := undoGo cls [(120, 2)] false 0 t
-
-/-- `_undo_escaping_backslash_x_u_and_U_in_pattern` -/
-def undoXuU (cls : List (Nat × Nat)) (t : Text) : Undo := undoGo cls [(120, 2), (117, 4), (85, 8)] false 0 t
 
 /-! ## `_translate_pattern` -/
 
@@ -227,6 +230,105 @@ def translate (lit rng : EscTable) (p : Text) : TrOut :=
   | .ok r => translateTree lit rng r
   | .err e => .parseErr e
   | .crash s => .crashParse s
+
+/-! ## The preparation of the patterns for the intersection (`greenery`) -/
+
+/-- `_GreeneryRenderer.char_to_str_and_escape_or_encode_if_necessary`: the table decides, every other
+character is written verbatim (encoded or not). -/
+def grnChr (tbl : EscTable) (c : Chr) : Text :=
+  match escLookup c.code tbl with
+  | some t => t
+  | none => [c.code]
+
+/-- one range of `_GreeneryRenderer.transform_char_set`: no position is special -/
+def grnRng (tbl : EscTable) (r : Rng) : Text :=
+  grnChr tbl r.start ++ (match r.stop with
+    | some e => [45] ++ grnChr tbl e
+    | none => [])
+
+def grnRngs (tbl : EscTable) : List Rng → Text
+  | [] => []
+  | r :: rs => grnRng tbl r ++ grnRngs tbl rs
+
+/-- `_GreeneryRenderer.transform_char_set` -/
+def grnSet (tbl : EscTable) (compl : Bool) (rs : List Rng) : Text :=
+  [91] ++ (if compl then [94] else []) ++ grnRngs tbl rs ++ [93]
+
+mutual
+  def grnValue (lit rng : EscTable) : Value → Text
+    | .group u => 40 :: (grnUnion lit rng u ++ [41])
+    | .char c => grnChr lit c
+    | .set compl rs => grnSet rng compl rs
+    | .fv _ => []
+    | .sym .start => [94]
+    | .sym .stop => [36]
+    | .sym .dot => [46]
+  def grnTerms (lit rng : EscTable) : List Term → Text
+    | [] => []
+    | .mk v q :: ts =>
+      grnValue lit rng v ++ ((match q with | some q => xsdQuant q | none => []) ++ grnTerms lit rng ts)
+  def grnAlts (lit rng : EscTable) : List Concat → Text
+    | [] => []
+    | .mk ts :: cs => 124 :: (grnTerms lit rng ts ++ grnAlts lit rng cs)
+  /-- the inherited `Renderer` with the two overrides of `_GreeneryRenderer` (and the greedy quantifiers of
+  `_XsdRenderer`, its base class) -/
+  def grnUnion (lit rng : EscTable) : Union → Text
+    | .mk [] => []
+    | .mk (.mk ts :: cs) => grnTerms lit rng ts ++ grnAlts lit rng cs
+end
+
+/-- `_render_pattern_for_greenery(pattern)` -/
+def renderForGreenery (lit rng : EscTable) (p : Text) : TrOut :=
+  match parse [.str p] with
+  | .ok r => if fvUnion r then .crashFormattedValue else .ok (grnUnion lit rng (raUnion r))
+  | .err e => .parseErr e
+  | .crash s => .crashParse s
+
+/-- `_escape_carets_and_dollars_rendered_by_greenery`: the `while` loop; `inSet` is `in_character_set`.
+A backslash takes the next character along (`text[i : i + 2]`). -/
+def escAnchors : Bool → Text → Text
+  | _, [] => []
+  | inSet, c :: r =>
+    if c = 92 then
+      match r with
+      | d :: r' => 92 :: d :: escAnchors inSet r'
+      | [] => [92]
+    else if inSet then c :: escAnchors (c != 93) r
+    else if c = 91 then c :: escAnchors true r
+    else if c = 94 ∨ c = 36 then 92 :: c :: escAnchors false r
+    else c :: escAnchors false r
+
+/-- a `^` or `$` outside of the character sets that no backslash precedes (what `_translate_pattern` would
+read as an anchor), scanning like `escAnchors` -/
+def liveAnchor : Bool → Text → Bool
+  | _, [] => false
+  | inSet, c :: r =>
+    if c = 92 then
+      match r with
+      | _ :: r' => liveAnchor inSet r'
+      | [] => false
+    else if inSet then liveAnchor (c != 93) r
+    else if c = 91 then liveAnchor true r
+    else if c = 94 ∨ c = 36 then true
+    else liveAnchor false r
+
+/-- The characters `greenery` reads as special outside of a character set (`Charclass.allSpecial`). -/
+def grnMetaLit : List Nat := [92, 91, 93, 124, 40, 41, 46, 63, 42, 43, 123, 125]
+
+/-- The characters `greenery` reads as special inside a character set (`Charclass.classSpecial`). -/
+def grnMetaRng : List Nat := [92, 91, 93, 94, 45]
+
+/-- `greenery`'s mnemonic escapes `\t \n \v \f \r`: (character after the backslash, denoted character) -/
+def grnMnemonic : List (Nat × Nat) := [(116, 9), (110, 10), (118, 11), (102, 12), (114, 13)]
+
+/-- An entry of a table for `greenery` is `\c` for a special character `c` (of the position), or a mnemonic
+escape of the key; every special character has an entry; no other key has one (in particular `^` and `$`
+outside of a set are written verbatim: `greenery` would refuse `\^`). -/
+def grnTableOk (metas : List Nat) (tbl : EscTable) : Bool :=
+  metas.all (fun m => escLookup m tbl == some [92, m]) &&
+  tbl.all (fun e =>
+    (metas.contains e.1 && e.2 == [92, e.1]) ||
+    (grnMnemonic.any fun mn => mn.2 == e.1 && e.2 == [92, mn.1]))
 
 /-! ## The reader for XSD regular expressions -/
 
